@@ -106,7 +106,7 @@ var verifReplacements = map[string]any{
 var purlTypes = []string{"", purl.TypeGeneric, purl.TypeNPM, purl.TypePyPi, purl.TypeDebian}
 
 // inventoryOf builds n packages with a symbolic name byte each, a PURL type (or none) by choice.
-func inventoryOf(n int) (*scalibr.ScanResult, []string) {
+func inventoryOf(n int, spdxRules bool) (*scalibr.ScanResult, []string) {
 	ex := srcExtractor{typ: map[*extractor.Package]string{}}
 	var pkgs []*extractor.Package
 	var want []string
@@ -114,13 +114,18 @@ func inventoryOf(n int) (*scalibr.ScanResult, []string) {
 		b := verifrt.Byte("name")
 		verifrt.Assume(verifrt.And(b >= 0x21, b <= 0x7e))
 		p := &extractor.Package{Name: "p" + string([]byte{b}) + "x", Version: "1." + string(rune('0'+i)), Locations: []string{"a/b"}, Extractor: ex}
+		if i == 0 && verifrt.Choice("no-version", 2) == 1 {
+			// a package whose version is unknown: SPDX export leaves it out (a PURL without version
+			// is not written there), CycloneDX export writes it
+			p.Version = ""
+		}
 		ex.typ[p] = purlTypes[verifrt.Choice("purl-type", len(purlTypes))]
 		pkgs = append(pkgs, p)
 		if u := ex.ToPURL(p); u != nil {
 			// what a reader of the printed PURL is entitled to see: the PURL as normalised for its type
 			parsed, err := purl.FromString(u.String())
 			verifrt.Assert(err == nil, "an exported package's PURL can be parsed back")
-			if err == nil {
+			if err == nil && (p.Version != "" || !spdxRules) {
 				want = append(want, parsed.String())
 			}
 		}
@@ -167,7 +172,7 @@ func check(inv inventory.Inventory, err error, want []string) {
 
 // VerifSPDX: ToSPDX23, written as JSON / YAML / tag-value, read back by the sbom/spdx extractor.
 func VerifSPDX() {
-	res, want := inventoryOf(verifrt.Param("packages"))
+	res, want := inventoryOf(verifrt.Param("packages"), true)
 	doc := converter.ToSPDX23(res, converter.SPDXConfig{})
 	curSPDX = doc
 	format := verifrt.Choice("format", 3)
@@ -197,7 +202,7 @@ func VerifSPDX() {
 
 // VerifCDX: ToCDX, written as JSON / XML, read back by the sbom/cdx extractor.
 func VerifCDX() {
-	res, want := inventoryOf(verifrt.Param("packages"))
+	res, want := inventoryOf(verifrt.Param("packages"), false)
 	bom := converter.ToCDX(res, converter.CDXConfig{ComponentName: "c", ComponentVersion: "1"})
 	curBOM = bom
 	format := verifrt.Choice("format", 2)
@@ -218,7 +223,7 @@ func VerifCDX() {
 
 // VerifTwin must be violated.
 func VerifTwin() {
-	res, want := inventoryOf(1)
+	res, want := inventoryOf(1, true)
 	curSPDX = converter.ToSPDX23(res, converter.SPDXConfig{})
 	if len(want) == 1 {
 		verifrt.Fail("twin")
